@@ -6,6 +6,8 @@ and outside, a dangling link and a cycle; a .flowmarkignore at several places wi
 small alphabet; x settings x every sequence of up to N arguments (files, directories, globs) in every
 order x two directory-listing orders.  Oracle: an independent reference walk written from the
 property text (lstat based, own gitignore-pattern matcher validated against git).
+History space: sequences of tree states on one directory path in one process (ignore file moved or
+rewritten, a file growing over the limit, a directory appearing), a new FileResolver per step.
 """
 from __future__ import annotations
 
@@ -38,10 +40,10 @@ LIMIT = 50
 TREE = {
     "t/a.md": 10, "t/b.txt": 10, "t/c.mdx": 10, "t/big.md": LIMIT + 10, "t/eq.md": LIMIT, "t/.hidden.md": 10,
     "t/sub/a.md": 10, "t/sub/c.mdx": 10, "t/sub/drafts/d.md": 10, "t/sub/deep/a.md": 10,
-    "t/drafts/d.md": 10, "t/node_modules/n.md": 10, "t/x.egg-info/e.md": 10, "t/zz/drafts/z.md": 10, "outside/o.md": 10,
+    "t/drafts/d.md": 10, "t/node_modules/n.md": 10, "t/x.egg-info/e.md": 10, "t/zz/drafts/z.md": 10, "outside/o.md": 10, "outside/obig.md": LIMIT + 1,
 }
 LINKS = {"t/lf_in.md": "a.md", "t/lf_out.md": "../outside/o.md", "t/ld_in": "sub", "t/ld_out": "../outside", "t/dangling.md": "nope.md",
-         "t/sub/cycle": ".."}
+         "t/sub/cycle": "..", "t/lbig.md": "big.md", "t/sub/lbig_out.md": "../../outside/obig.md"}
 IGN_PLACES = [None, "t", "t/sub", "."]        # "." = above the root
 IGN_RULES = [["a.md"], ["sub/"], ["/a.md"], ["sub/a.md"], ["*.md"], ["*.md", "!a.md"], ["deep/"], ["drafts/d.md"]]
 SETTINGS = [
@@ -54,7 +56,7 @@ SETTINGS = [
     dict(files_max_size=0),
     dict(force_exclude=True, extend_exclude=["sub/drafts/"]),
 ]
-ARGS = [".", "sub", "a.md", "node_modules/n.md", "lf_in.md", "*.md", "**/*.md", "sub/*.md", "drafts", "sub/drafts/d.md", "big.md", "zz"]
+ARGS = [".", "sub", "a.md", "node_modules/n.md", "lf_in.md", "*.md", "**/*.md", "sub/*.md", "drafts", "sub/drafts/d.md", "big.md", "zz", "lbig.md", "sub/lbig_out.md"]
 
 _CACHE = {}
 
@@ -292,5 +294,85 @@ class Discovery(Space):
         return Outcome(viol=viol, tags=tags, obs=hash(tuple(got or ())))
 
 
+class History(Space):
+    """Sequences of tree states on ONE directory path within one process (ignore file moved / rewritten, a file growing over
+    the limit, a directory appearing), a new FileResolver per step: every listing must equal the reference for the tree as
+    it is at that moment, whatever was listed before."""
+    prop = "C17"
+    name = "history"
+
+    STATES = [(None, 0, False), ("t", 0, False), ("t", 4, False), ("t", 5, False), ("t/sub", 0, False), (".", 1, False), (None, 0, True), ("t", 6, True)]
+    ARGSETS = [["."], ["*.md", "sub"], ["**/*.md"]]
+
+    def __init__(self, tier):
+        self.depth = 2 if tier == "quick" else 3
+        self.floors = {"listing-changes-between-steps": 50}
+
+    def cases(self):
+        for n in range(2, self.depth + 1):
+            for steps in itertools.product(range(len(self.STATES)), repeat=n):
+                for a in range(len(self.ARGSETS)):
+                    yield (steps, a)
+
+    def describe(self, case):
+        steps, a = case
+        return {"steps": [{"flowmarkignore": None if self.STATES[s][0] is None else {self.STATES[s][0]: IGN_RULES[self.STATES[s][1]]},
+                           "a.md grown over the limit and new directory t/new/": self.STATES[s][2]} for s in steps],
+                "args": self.ARGSETS[a], "cwd": "t", "tree": "universe+symlinks"}
+
+    def smaller(self, case):
+        steps, a = case
+        for x in range(len(steps) - 1):
+            if len(steps) > 1:
+                yield (steps[:x] + steps[x + 1:], a)
+        if a:
+            yield (steps, 0)
+
+    def evaluate(self, case):
+        steps, a = case
+        d = tempfile.mkdtemp(prefix="c17h-", dir=core.scratch_root())
+        viol, seen = [], []
+        old_cwd = os.getcwd()
+        try:
+            for rel, size in TREE.items():
+                p = os.path.join(d, rel)
+                os.makedirs(os.path.dirname(p), exist_ok=True)
+                with open(p, "w") as f:
+                    f.write("x" * (size - 1) + "\n")
+            for rel, target in LINKS.items():
+                os.symlink(target, os.path.join(d, rel))
+            cwd = os.path.join(d, "t")
+            os.chdir(cwd)
+            for pos, st in enumerate(steps):
+                place, rule, grown = self.STATES[st]
+                for pl in ("t", "t/sub", "."):
+                    ip = os.path.join(d, pl, ".flowmarkignore")
+                    if pl == place:
+                        with open(ip, "w") as f:
+                            f.write("\n".join(IGN_RULES[rule]) + "\n")
+                    elif os.path.exists(ip):
+                        os.unlink(ip)
+                with open(os.path.join(cwd, "a.md"), "w") as f:
+                    f.write("x" * ((LIMIT + 5 if grown else 10) - 1) + "\n")
+                newdir = os.path.join(cwd, "new")
+                if grown:
+                    os.makedirs(newdir, exist_ok=True)
+                    with open(os.path.join(newdir, "n.md"), "w") as f:
+                        f.write("n\n")
+                else:
+                    shutil.rmtree(newdir, ignore_errors=True)
+                want = ref_resolve(cwd, self.ARGSETS[a], {})
+                got = [str(p) for p in FileResolver(FileResolverConfig(files_max_size=LIMIT, respect_gitignore=False)).resolve(self.ARGSETS[a])]
+                seen.append(tuple(want))
+                if got != want and not viol:
+                    rel_ = lambda ps: [os.path.relpath(p, d) for p in ps]  # noqa: E731
+                    viol.append(("listing-depends-on-earlier-tree-state" if pos else "first-listing-wrong",
+                                 {"step": pos, "unwanted": rel_(sorted(set(got) - set(want))), "missed": rel_(sorted(set(want) - set(got)))}))
+        finally:
+            os.chdir(old_cwd)
+            shutil.rmtree(d, ignore_errors=True)
+        return Outcome(viol=viol, tags=["listing-changes-between-steps"] if len(set(seen)) > 1 else [], obs=hash(tuple(seen)))
+
+
 def spaces(tier):
-    return [Discovery(tier)]
+    return [Discovery(tier), History(tier)]
